@@ -127,7 +127,8 @@ EXPR_TEMPLATES = ["%Size() > 0", "%Name() +", "%Size() + 'x'", "1/0", "%Size() i
                   "%Nope()", "%Name(", "'" * 3,
                   # succeed for some files and fail for others: a lazily evaluated filter/sort would rename first
                   "%Size() < 2 or 1/0", "%Size() > 1 or 1/0", "%Name() == 'a.txt' or %Size() + 'x'", "%Name() != 'a.txt' or 1/0",
-                  "%Size() if %Size() < 2 else 'x'", "%Name() if %Size() > 1 else %Size()"]
+                  "%Size() if %Size() < 2 else 'x'", "%Name() if %Size() > 1 else %Size()",
+                  "100 / %Size() > 1", "%Size() > 0 or 1/0", "%Name() != 'a.txt' or 10 // %Size()"]
 
 
 def gen_cli(rng, n, tier):
@@ -149,7 +150,10 @@ def gen_cli(rng, n, tier):
 
 
 def impl_cli(case):
-    with common.Sandbox({"in": None, "in/a.txt": "A", "in/b.txt": "BB", "in/sub": None, "in/sub/c": "C"}) as root:
+    # two input directories with one relative name in common; in2/a.txt is empty (expressions dividing by the size fail
+    # for it only)
+    with common.Sandbox({"in": None, "in/a.txt": "A", "in/b.txt": "BB", "in/sub": None, "in/sub/c": "C",
+                         "in2": None, "in2/a.txt": "", "in2/d.txt": "DDD"}) as root:
         before = common.snapshot(root, with_ino=True)
         t = case["t"]
         if case["position"] == "name":
@@ -159,14 +163,52 @@ def impl_cli(case):
         else:
             args = ["%Name()_x", "--sort=" + t]
         # `--` so that a template starting with a dash is not taken for an option
-        args = case["aliases"] + ["-r"] + args[1:] + ["--", args[0], str(root / "in")]
+        args = case["aliases"] + ["-r"] + args[1:] + ["--", args[0], str(root / "in"), str(root / "in2")]
         out, err, rc = common.run_cli(args)
         after = common.snapshot(root, with_ino=True)
         located = None
         for line in err.split("\n"):
             if "Template error at line" in line:
                 located = line.split("Template error at ")[1][:40]
-        return {"rc": rc, "unchanged": before == after, "located": located, "err": err.strip()[-200:] if rc not in (0,) else ""}
+        obs = {"rc": rc, "unchanged": before == after, "located": located, "err": err.strip()[-200:] if rc not in (0,) else ""}
+        if rc in (3, 4) and before == after:
+            # the verdict on a template does not depend on how many files happen to be selected: the same template on
+            # a single explicitly named file, for each of the files (a compile error is an error for every input; an
+            # evaluation failure must show for at least the file it failed for)
+            singles = []
+            for f in ALL_FILES:
+                o2, e2, rc2 = common.run_cli(case["aliases"] + args_for(case, root, str(root / f), recursive=False))
+                singles.append(rc2)
+                if common.snapshot(root, with_ino=True) != before:
+                    break
+            # ... and on a directory that holds exactly one file
+            o3, e3, rc3 = common.run_cli(case["aliases"] + args_for(case, root, str(root / "in" / "sub"), recursive=False))
+            obs["singles"], obs["onefile_dir"] = singles, rc3
+            obs["singles_unchanged"] = common.snapshot(root, with_ino=True) == before
+        elif rc == 0 and case["position"] != "name" and "%" in t:
+            # accepted as a whole: then it is accepted for each file on its own (a result remembered for one file must
+            # not stand in for another file's)
+            singles = []
+            for f in ALL_FILES:
+                o2, e2, rc2 = common.run_cli(case["aliases"] + args_for(case, root, str(root / f), recursive=False))
+                singles.append(rc2)
+            obs["accepted_singles"] = singles
+        return obs
+
+
+ALL_FILES = ("in/a.txt", "in/b.txt", "in/sub/c", "in2/a.txt", "in2/d.txt")
+
+
+def args_for(case, root, target, recursive=True):
+    t = case["t"]
+    if case["position"] == "name":
+        args = [t]
+    elif case["position"] == "filter":
+        args = ["%Name()_x", "--filter-template=" + t]
+    else:
+        args = ["%Name()_x", "--sort=" + t]
+    # (a dry run: filter and sort are evaluated exactly as in a real run, an accepted template renames nothing)
+    return ["--dry-run"] + (["-r"] if recursive else []) + args[1:] + ["--", args[0], target]
 
 
 def oracle_cli(case, obs):
@@ -184,6 +226,21 @@ def oracle_cli(case, obs):
         return msg
     if rc in (2, 3, 4) and not obs["unchanged"]:
         return f"{case['position']} template {case['t']!r} was rejected (status {rc}) after the tree had been changed"
+    if 4 in obs.get("accepted_singles", []):
+        return (f"{case['position']} template {case['t']!r} is accepted for the two directories together but fails to evaluate for "
+                f"a file on its own: {dict(zip(ALL_FILES, obs['accepted_singles']))}")
+    if "singles" in obs:
+        if rc == 3 and (any(x != 3 for x in obs["singles"]) or obs["onefile_dir"] != 3):
+            return (f"{case['position']} template {case['t']!r} is a template error (3) on a directory with several files but gives "
+                    f"{obs['singles']} on single files and {obs['onefile_dir']} on a one-file directory")
+        if rc == 4 and "not supported between" not in obs["err"] and 4 not in obs["singles"]:
+            return (f"{case['position']} template {case['t']!r} fails to evaluate (4) on the directory but is accepted for every "
+                    f"file on its own: {obs['singles']}")
+        if rc == 4 and "not supported between" not in obs["err"] and obs["singles"][2:3] == [4] and obs["onefile_dir"] != 4:
+            return (f"{case['position']} template {case['t']!r} fails for in/sub/c named explicitly but not when in/sub is given "
+                    f"as a directory: {obs['onefile_dir']}")
+        if not obs["singles_unchanged"]:
+            return f"{case['position']} template {case['t']!r}: a rejected single-file run changed the tree"
     if rc == 3 and obs["located"]:
         import re
         m = re.match(r"line (\d+):(\d+)", obs["located"])
